@@ -8,12 +8,10 @@ class C29(C28):
     theorems = ["C29_total_order_modelled_ir", "C29_keyed_fold_per_key", "C29_keyed_reduce_per_key",
                 "C29_interleaving_invariant_fold", "C29_interleaving_invariant_reduce",
                 "C29_keyed_tick_partition_modelled_ir", "C29_proj_concat",
-                "C29_join_bounded_unordered_side_refuted", "C29_repaired_typing_oracle_independent"]
+                "C29_repaired_typing_oracle_independent"]
     imports = "From HV Require Import Hydro.Model Hydro.ModelTick Hydro.ModelFlows."
     fn = "chk29"
     prop = "C29"
-    theorems_refuted = ["C29_join_bounded_unordered_side_refuted"]
-    KEY = "join/bounded-right-noorder/typed-total-order"
     rule = ("ordered / keyed corpus flows: small inputs under ALL partitions into <= 3 (4) ticks, large inputs "
             "under random partitions; keyed flows additionally: fixed per-key sequences under random cross-key "
             "interleavings (per-key order kept) x random partitions; the executable property is sequence equality "
@@ -39,18 +37,6 @@ class C29(C28):
                                                  hydro.g_impl(res))
             return tr.wrap(flow, case, term)
         return super().to_coq(case, res)
-
-    def finding_key(self, case, res):
-        """known class: join/cross_product whose Bounded right side is NoOrder, a left item with >= 2
-        matches that arrive in a non-canonical order"""
-        if case.get("flow") != "t_join_half_unord" or "ticks" not in case:
-            return None
-        for t in case["ticks"]:
-            b = t.get("b", [])
-            keys_a = {x[0] for x in t.get("a", [])}
-            if b != sorted(b) and any(sum(1 for y in b if y[0] == k) >= 2 for k in keys_a):
-                return self.KEY
-        return None
 
     def extra(self):
         e = super().extra()
